@@ -123,6 +123,19 @@ theorem value_exact (s : St) (xo x : Pt) (y : Rat) (s' : St) (v : Rat) (idx : Op
   · cases h0.1
   · subst h2; exact ⟨rfl, h3, h4⟩
 
+/-- VALUE EXACT WITHOUT SPECIFIED NOISE: on a logger whose noise is not user-specified, EVERY recorded observation - a call, or a pre-evaluated
+    addition that comes with an SD (explicit, or the default 1 of a logger that keeps noise) - appends a record holding exactly the point and
+    the value; nothing is ever merged, whatever the log holds. -/
+theorem value_exact_without_specified_noise (s : St) (xo x : Pt) (y : Rat) (sd : Option Rat) (s' : St) (v : Rat) (idx : Option Nat)
+    (hhe : s.he = false) (h : record s xo x y sd true = .ok (s', v, idx)) :
+    s'.rows = s.rows ++ [{ xo := xo, x := x, y := y, yo := y, tau := sd.map (fun v => 1 / (v * v)), n := 1 }] ∧ v = y ∧
+    idx = some s.rows.length := by
+  rcases record_cases s xo x y sd true s' v idx h with ⟨i, hrd, _, _, _, _⟩ | ⟨hrd, _, _, _, _⟩ | ⟨i, sdv, _, h0, _, _, _⟩ | ⟨c, _, _, h2, h3, h4, _⟩
+  · cases hrd
+  · cases hrd
+  · rw [hhe] at h0; cases h0.2
+  · subst h2; exact ⟨rfl, h3, h4⟩
+
 /-- MERGE = PRECISION-WEIGHTED MEAN, one step: merging `(y, sd)` into a record that summarises the
     observations `obs` yields the record summarising `obs ++ [(y, 1/sd²)]`:
     `Y · Σ 1/sⱼ² = Σ yⱼ/sⱼ²`, `1/S² = Σ 1/sⱼ²`, `n_evals = number of observations`. -/
